@@ -247,3 +247,12 @@ pub assume_specification<T, E, U: core::marker::Destruct, F: FnOnce(T) -> U + co
     ensures match x { Ok(v) => f.ensures((v,), r), Err(_) => r == d };
 pub assume_specification [<std::cmp::Ordering as PartialEq>::eq] (a: &std::cmp::Ordering, b: &std::cmp::Ordering) -> (r: bool)
     ensures r == (*a == *b);
+// std::fs::Metadata of a stored point file
+#[verifier::external_body] pub struct Metadata { _opaque: () }
+impl Metadata {
+    pub uninterp spec fn len_spec(&self) -> nat;
+    #[verifier::external_body]
+    pub fn len(&self) -> (r: u64) ensures r as nat == self.len_spec() { unimplemented!() }
+    #[verifier::external_body]
+    pub fn is_file(&self) -> (r: bool) { unimplemented!() }
+}
